@@ -389,3 +389,16 @@ def assigns_attr(func: FuncInfo, attr_text: str) -> bool:
 def inline_attr_setters(prog, attr_text: str, depth: int = 3):
     """Inline policy: methods called on self that (directly) assign the attribute are walked as part of their caller."""
     return lambda fn, t, d: d < depth and t.bound_cls is not None and assigns_attr(fn, attr_text)
+
+
+def is_generator(fnode: ast.AST) -> bool:
+    """True when the function's own body (not a nested def/lambda/class) contains yield."""
+    work = list(ast.iter_child_nodes(fnode))
+    while work:
+        n = work.pop()
+        if isinstance(n, (ast.FunctionDef, ast.AsyncFunctionDef, ast.Lambda, ast.ClassDef)):
+            continue
+        if isinstance(n, (ast.Yield, ast.YieldFrom)):
+            return True
+        work.extend(ast.iter_child_nodes(n))
+    return False
